@@ -1,10 +1,10 @@
 (* C04 - round-trip proofs for the line/token codecs xyz, obj, off, tet, medit (all meshes, by induction on
    the vertex / element lists).  The only fact used about floats is the section hypothesis
    rf (pf x) = x  (Python: float('{}'.format(x)) == x for a binary64 x). *)
-From Coq Require Import ZArith Bool String Ascii Lia.
+From Coq Require Import ZArith Bool String Ascii Lia ZifyBool.
 From Coq Require Import List.
 Import ListNotations.
-Require Import MV.Lib.Base MV.C04.Gen MV.C04.Model.
+Require Import MV.Lib.Base MV.C04.Gen MV.C04.Model MV.C04.Ref.
 Open Scope list_scope.
 Open Scope Z_scope.
 
@@ -266,21 +266,23 @@ Proof. unfold medit_imp_idx, medit_exp_idx. lia. Qed.
 Lemma medit_vertex_line_eq v : medit_vertex_line v = Some (map fl (v3 v) ++ [TI medit_exp_ref]).
 Proof. destruct v as [[x y] z]. reflexivity. Qed.
 
-Lemma medit_elem_vertex v acc :
-  medit_elem KVert (map fl (v3 v) ++ [TI medit_exp_ref]) acc = Some (add_vertices [v3 v] acc).
+Lemma medit_elem_vertex v acc rn :
+  medit_elem KVert (map fl (v3 v) ++ [TI rn]) acc = Some (add_vertices [v3 v] acc).
 Proof.
   destruct acc as [[[V E] Fs] C]. destruct v as [[x y] z]. unfold Model.medit_elem.
-  change (slice (map fl (v3 (x, y, z)) ++ [TI medit_exp_ref]) 0 medit_imp_vertex_hi) with (map fl [x; y; z]).
+  change (slice (map fl (v3 (x, y, z)) ++ [TI rn]) 0 medit_imp_vertex_hi) with (map fl [x; y; z]).
   rewrite omap_float_fl. reflexivity.
 Qed.
 
-Lemma medit_elem_field c a e acc :
+Definition elem_line_r (rn : Z) (e : list Z) : line := map (fun i => TI (medit_exp_idx i)) e ++ [TI rn].
+
+Lemma medit_elem_field_r rn c a e acc :
   (c = 1 \/ c = 2 \/ c = 3) -> zlen e = a ->
-  medit_elem (KField c a) (medit_elem_line e) acc = Some (add_field c [e] acc).
+  medit_elem (KField c a) (elem_line_r rn e) acc = Some (add_field c [e] acc).
 Proof.
-  intros Hc Ha. destruct acc as [[[V E] Fs] C]. unfold Model.medit_elem, Model.medit_elem_line.
-  replace (map (fun i : Z => TI (medit_exp_idx i)) e ++ [TI medit_exp_ref])
-    with (map TI (map medit_exp_idx e ++ [medit_exp_ref])) by (now rewrite map_app, map_map).
+  intros Hc Ha. destruct acc as [[[V E] Fs] C]. unfold Model.medit_elem, elem_line_r.
+  replace (map (fun i : Z => TI (medit_exp_idx i)) e ++ [TI rn])
+    with (map TI (map medit_exp_idx e ++ [rn])) by (now rewrite map_app, map_map).
   rewrite omap_int_TInt, map_app, map_map.
   rewrite (map_ext _ (fun i => i) medit_idx_inv), map_id.
   unfold slice. rewrite Z.sub_0_r. change (Z.to_nat 0) with 0%nat. cbn [skipn].
@@ -289,9 +291,14 @@ Proof.
   destruct Hc as [-> | [-> | ->]]; reflexivity.
 Qed.
 
-Lemma medit_block_vertices (V : list (F * F * F)) : forall r acc rest,
+Lemma medit_elem_field c a e acc :
+  (c = 1 \/ c = 2 \/ c = 3) -> zlen e = a ->
+  medit_elem (KField c a) (medit_elem_line e) acc = Some (add_field c [e] acc).
+Proof. apply (medit_elem_field_r medit_exp_ref). Qed.
+
+Lemma medit_block_vertices rn (V : list (F * F * F)) : forall r acc rest,
   length V = S r ->
-  medit_run (MBlock KVert (S r), acc) (map (fun v => map fl (v3 v) ++ [TI medit_exp_ref]) V ++ rest)
+  medit_run (MBlock KVert (S r), acc) (map (fun v => map fl (v3 v) ++ [TI rn]) V ++ rest)
   = medit_run (MIdle, add_vertices (map v3 V) acc) rest.
 Proof.
   induction V as [|v V IH]; intros r acc rest HL; [discriminate|].
@@ -302,19 +309,26 @@ Proof.
     cbn [map]. now rewrite (add_vertices_cons (v3 v) (v3 v' :: map v3 V) acc).
 Qed.
 
-Lemma medit_block_field c a (els : list (list Z)) :
+Lemma medit_block_field_r rn c a (els : list (list Z)) :
   (c = 1 \/ c = 2 \/ c = 3) -> Forall (fun e => zlen e = a) els -> forall r acc rest,
   length els = S r ->
-  medit_run (MBlock (KField c a) (S r), acc) (map medit_elem_line els ++ rest)
+  medit_run (MBlock (KField c a) (S r), acc) (map (elem_line_r rn) els ++ rest)
   = medit_run (MIdle, add_field c els acc) rest.
 Proof.
   intros Hc Hall. induction Hall as [|e els He Hall IH]; intros r acc rest HL; [discriminate|].
-  cbn [map app Model.medit_run Model.medit_step]. rewrite medit_elem_field by assumption.
+  cbn [map app Model.medit_run Model.medit_step]. rewrite medit_elem_field_r by assumption.
   destruct els as [|e' els].
   - cbn in HL. injection HL as HL. subst r. reflexivity.
   - destruct r as [|r]; [discriminate|]. rewrite IH by (cbn in *; lia).
     now rewrite (add_field_cons c e (e' :: els) acc).
 Qed.
+
+Lemma medit_block_field c a (els : list (list Z)) :
+  (c = 1 \/ c = 2 \/ c = 3) -> Forall (fun e => zlen e = a) els -> forall r acc rest,
+  length els = S r ->
+  medit_run (MBlock (KField c a) (S r), acc) (map medit_elem_line els ++ rest)
+  = medit_run (MIdle, add_field c els acc) rest.
+Proof. apply (medit_block_field_r medit_exp_ref). Qed.
 
 (* a keyword line followed by its count line and n element lines, then the blank line export_medit writes *)
 Lemma medit_idle_blank acc rest : medit_run (MIdle, acc) ([] :: rest) = medit_run (MIdle, acc) rest.
@@ -348,7 +362,7 @@ Proof.
   destruct (zlen V <=? 0) eqn:E.
   { destruct V; [congruence|]. unfold zlen in E. cbn in E. lia. }
   destruct (length V) as [|r] eqn:HL; [destruct V; [congruence|discriminate]|].
-  cbn [Model.medit_step]. rewrite E, zlen_nat, HL. rewrite (medit_block_vertices V r) by assumption.
+  cbn [Model.medit_step]. rewrite E, zlen_nat, HL. rewrite (medit_block_vertices medit_exp_ref V r) by assumption.
   apply medit_idle_blank.
 Qed.
 
@@ -437,6 +451,327 @@ Proof.
   rewrite (HB 2 (mF m)) by (now left). rewrite <- (app_nil_r (if isnil (mC m) then _ else _)).
   rewrite (HB 3 (mC m)) by (now right).
   cbn [Model.medit_run]. cbn. now rewrite !app_nil_r.
+Qed.
+
+
+(* ================================================================== interoperability (reference codecs of Ref.v) *)
+Notation ref_parse_obj := (@ref_parse_obj F Ftxt Cx Ctxt rf f_of_int).
+Notation ref_parse_obj_lines := (@ref_parse_obj_lines F Ftxt Ctxt rf f_of_int).
+Notation ref_print_obj := (@ref_print_obj F Ftxt Cx Ctxt pf).
+Notation rtake_nums := (@take_nums F Ftxt Ctxt rf f_of_int).
+
+Lemma rtake_nums_fl (xs : list F) rest : rtake_nums (length xs) (map fl xs ++ rest) = Some (xs, rest).
+Proof.
+  induction xs as [|x xs IH]; [reflexivity|]. cbn [length map app Ref.take_nums Ref.num Model.fl].
+  rewrite rf_pf. fold (map fl xs). rewrite IH. reflexivity.
+Qed.
+
+(* ---- obj : mouette's file read by the reference reader *)
+Definition obj_ref_ok (el : list (Z * Z)) (m : mesh) : Prop :=
+  Forall (fun e => 0 <= fst e /\ 0 <= snd e) el
+  /\ Forall (fun f => (3 <= length f)%nat /\ Forall (fun i => 0 <= i) f) (mF m).
+
+Lemma omap_obj_index (f : list Z) : Forall (fun i => 0 <= i) f ->
+  omap (@obj_index Ftxt Ctxt) (map (fun vid => TI (obj_exp_vid vid)) f) = Some f.
+Proof.
+  intros H. rewrite omap_map. rewrite (omap_ext_some _ (fun i => i)); [now rewrite map_id|].
+  intros i Hi. rewrite Forall_forall in H. specialize (H i Hi). unfold obj_index, obj_exp_vid.
+  destruct (1 <=? i + 1) eqn:E; [|lia]. f_equal. lia.
+Qed.
+
+Lemma ref_obj_vertices (V : list (F * F * F)) rest acc :
+  ref_parse_obj_lines rest = Some acc ->
+  ref_parse_obj_lines (map obj_vertex_line V ++ rest) = Some (let '(V0, E0, F0) := acc in (map v3 V ++ V0, E0, F0)).
+Proof.
+  intros Hr. induction V as [|[[x y] z] V IH]; cbn [map app].
+  - rewrite Hr. now destruct acc as [[? ?] ?].
+  - cbn [Ref.ref_parse_obj_lines]. rewrite IH. destruct acc as [[V0 E0] F0].
+    unfold Model.obj_vertex_line. change (Ref.word (TW obj_exp_kw_v) "v") with true. cbn iota.
+    change (rtake_nums 3 (map fl (v3 (x, y, z)))) with (rtake_nums (length [x; y; z]) (map fl [x; y; z] ++ [])).
+    rewrite rtake_nums_fl. reflexivity.
+Qed.
+
+Lemma ref_obj_edges (E : list (Z * Z)) rest acc :
+  Forall (fun e => 0 <= fst e /\ 0 <= snd e) E ->
+  ref_parse_obj_lines rest = Some acc ->
+  ref_parse_obj_lines (map obj_edge_line E ++ rest) = Some (let '(V0, E0, F0) := acc in (V0, map e2 E ++ E0, F0)).
+Proof.
+  intros HE Hr. induction HE as [|[a b] E [Ha Hb] _ IH]; cbn [map app].
+  - rewrite Hr. now destruct acc as [[? ?] ?].
+  - cbn [Ref.ref_parse_obj_lines]. rewrite IH. destruct acc as [[V0 E0] F0].
+    unfold Model.obj_edge_line, obj_exp_edge. cbn [fst snd map] in *.
+    change (Ref.word (TW obj_exp_kw_l) "v") with false. change (Ref.word (TW obj_exp_kw_l) "l") with true. cbn iota.
+    cbn [omap obj_index]. destruct (1 <=? a + 1) eqn:E1; [|lia]. destruct (1 <=? b + 1) eqn:E2; [|lia].
+    replace (a + 1 - 1) with a by lia. replace (b + 1 - 1) with b by lia. reflexivity.
+Qed.
+
+Lemma ref_obj_faces (Fs : list (list Z)) :
+  Forall (fun f => (3 <= length f)%nat /\ Forall (fun i => 0 <= i) f) Fs ->
+  ref_parse_obj_lines (map obj_face_line Fs) = Some ([], [], Fs).
+Proof.
+  induction 1 as [|f Fs [Hl Hi] _ IH]; [reflexivity|].
+  cbn [map Ref.ref_parse_obj_lines]. rewrite IH. unfold Model.obj_face_line.
+  change (Ref.word (TW obj_exp_kw_f) "v") with false. change (Ref.word (TW obj_exp_kw_f) "l") with false.
+  change (Ref.word (TW obj_exp_kw_f) "f") with true. cbn iota.
+  rewrite (omap_obj_index _ Hi). destruct f as [|a [|b [|c f]]]; cbn in Hl; try lia. reflexivity.
+Qed.
+
+Lemma obj_ref_reads sw (m : mesh) L el :
+  obj_exported_edges sw m = Some el -> obj_ref_ok el m -> print_obj sw m = Some L ->
+  ref_parse_obj L = Some (raw_of Cx (map v3 (mV m)) (map e2 el) (mF m) []).
+Proof.
+  intros Hel [HE HF]. unfold Model.print_obj. rewrite Hel. intros [= <-]. unfold Ref.ref_parse_obj.
+  rewrite (ref_obj_vertices _ _ _ (ref_obj_edges _ _ _ HE (ref_obj_faces _ HF))).
+  cbn. now rewrite !app_nil_r.
+Qed.
+
+(* ---- obj : the reference writer's file loaded by mouette *)
+Lemma obj_loads_ref (m : mesh) :
+  parse_obj (ref_print_obj m) = Some (raw_of Cx (map v3 (mV m)) (map (fun e => keyify2 (fst e) (snd e)) (mE m)) (mF m) []).
+Proof.
+  unfold Ref.ref_print_obj, Model.parse_obj.
+  change (map (fun v => W Ftxt Ctxt "v" :: map fl (v3 v)) (mV m)) with (map obj_vertex_line (mV m)).
+  change (map (fun e : Z * Z => [W Ftxt Ctxt "l"; I Ftxt Ctxt (fst e + 1); I Ftxt Ctxt (snd e + 1)]) (mE m)) with (map obj_edge_line (mE m)).
+  change (map (fun f => W Ftxt Ctxt "f" :: map (fun i => I Ftxt Ctxt (i + 1)) f) (mF m)) with (map obj_face_line (mF m)).
+  cbn [Model.parse_obj_lines].
+  rewrite (obj_vertices_block _ _ _ (obj_edges_block _ _ _ (obj_faces_block _))).
+  cbn. now rewrite !app_nil_r.
+Qed.
+
+(* ---- medit : the reference writer's file loaded by mouette *)
+Notation ref_print_medit := (@ref_print_medit F Ftxt Cx Ctxt pf).
+Notation ref_medit_block := (@ref_medit_block Ftxt Ctxt).
+
+Lemma medit_ref_block_run kw c a (els : list (list Z)) acc rest :
+  (c = 1 \/ c = 2 \/ c = 3) ->
+  line_is [TW kw] medit_imp_end = false ->
+  medit_keyword [TW kw] = Some (KField c a) ->
+  medit_run (MIdle, acc) (ref_medit_block kw a els ++ rest) = medit_run (MIdle, add_field c (filter (len_is a) els) acc) rest.
+Proof.
+  intros Hc Hend Hkw. unfold Ref.ref_medit_block.
+  destruct (filter (len_is a) els) as [|e0 sel] eqn:Esel.
+  - cbn. now rewrite add_field_nil.
+  - cbn [isnil app]. cbn [Model.medit_run Model.medit_step].
+    change (W Ftxt Ctxt kw) with (TW kw). rewrite Hend, Hkw.
+    change (I Ftxt Ctxt (zlen (e0 :: sel))) with (TI (zlen (e0 :: sel))). cbn [Model.medit_step].
+    destruct (zlen (e0 :: sel) <=? 0) eqn:E; [unfold zlen in E; cbn in E; lia|].
+    rewrite zlen_nat. cbn [length].
+    change (map (fun e => map (fun i => I Ftxt Ctxt (i + 1)) e ++ [I Ftxt Ctxt 0]) (e0 :: sel)) with (map (elem_line_r 0) (e0 :: sel)).
+    rewrite (medit_block_field_r 0 c a (e0 :: sel) Hc) with (r := length sel); [reflexivity | | reflexivity].
+    rewrite <- Esel. apply filter_len_Forall.
+Qed.
+
+Lemma medit_loads_ref (m : mesh) :
+  parse_medit (ref_print_medit m)
+  = Some (raw_of Cx (map v3 (mV m)) (map e2 (mE m))
+            (filter (len_is 3) (mF m) ++ filter (len_is 4) (mF m)) (filter (len_is 4) (mC m) ++ filter (len_is 8) (mC m))).
+Proof.
+  unfold Ref.ref_print_medit, Model.parse_medit.
+  rewrite !medit_header_run.
+  (* vertices: written even when there are none *)
+  assert (HV : forall acc rest, medit_run (MIdle, acc)
+      (([W Ftxt Ctxt "Vertices"] :: [I Ftxt Ctxt (zlen (mV m))] :: map (fun v => map fl (v3 v) ++ [I Ftxt Ctxt 0]) (mV m)) ++ rest)
+      = medit_run (MIdle, add_vertices (map v3 (mV m)) acc) rest).
+  { intros acc rest. cbn [app Model.medit_run Model.medit_step].
+    change (line_is [W Ftxt Ctxt "Vertices"] medit_imp_end) with false.
+    change (medit_keyword [W Ftxt Ctxt "Vertices"]) with (Some KVert). cbn iota.
+    change (I Ftxt Ctxt (zlen (mV m))) with (TI (zlen (mV m))). cbn [Model.medit_step].
+    destruct (mV m) as [|v V].
+    - cbn. destruct acc as [[[? ?] ?] ?]. cbn. now rewrite app_nil_r.
+    - destruct (zlen (v :: V) <=? 0) eqn:E; [unfold zlen in E; cbn in E; lia|].
+      rewrite zlen_nat. cbn [length].
+      rewrite (medit_block_vertices 0 (v :: V) (length V)) by reflexivity. reflexivity. }
+  rewrite HV.
+  rewrite (medit_ref_block_run "Edges" 1 2) by (try reflexivity; now left).
+  rewrite (medit_ref_block_run "Triangles" 2 3) by (try reflexivity; tauto).
+  rewrite (medit_ref_block_run "Quadrilaterals" 2 4) by (try reflexivity; tauto).
+  rewrite (medit_ref_block_run "Tetrahedra" 3 4) by (try reflexivity; tauto).
+  rewrite (medit_ref_block_run "Hexahedra" 3 8) by (try reflexivity; tauto).
+  cbn [Model.medit_run Model.medit_step].
+  change (line_is [W Ftxt Ctxt "End"] medit_imp_end) with true. cbn iota.
+  assert (HE : filter (len_is 2) (map e2 (mE m)) = map e2 (mE m)).
+  { induction (mE m) as [|[a b] E IH]; [reflexivity|]. cbn. now rewrite IH. }
+  rewrite HE. cbn. rewrite ?app_nil_r. reflexivity.
+Qed.
+
+
+(* ---- medit : mouette's file read by the reference reader (free-form: works on the stream of tokens) *)
+Notation ref_medit_loop := (@ref_medit_loop F Ftxt Ctxt rf f_of_int).
+Notation ref_parse_medit := (@ref_parse_medit F Ftxt Cx Ctxt rf f_of_int).
+Notation rmacc := (rmacc F).
+Notation rtake_ints := (@take_ints Ftxt Ctxt).
+Notation rtake_records := (@take_records Ftxt Ctxt).
+
+Definition blk (B : list tok) (f : rmacc -> rmacc) : Prop :=
+  B <> [] /\ forall fuel rest a, ref_medit_loop (S fuel) (B ++ rest) a = ref_medit_loop fuel rest (f a).
+
+Lemma run_blocks (bs : list (list tok * (rmacc -> rmacc))) :
+  Forall (fun b => blk (fst b) (snd b)) bs -> forall a extra,
+  ref_medit_loop (S (length (concat (map fst bs)) + extra)) (concat (map fst bs)) a
+  = Some (fold_left (fun a b => snd b a) bs a).
+Proof.
+  induction 1 as [|[B f] bs [Hne Hb] _ IH]; intros a extra; [reflexivity|].
+  cbn [map concat fst snd fold_left] in *. rewrite app_length.
+  destruct B as [|t B]; [congruence|]. cbn [length].
+  replace (S (S (length B) + length (concat (map fst bs)) + extra))
+    with (S (S (length (concat (map fst bs)) + (length B + extra)))) by lia.
+  rewrite Hb. apply IH.
+Qed.
+
+Lemma rtake_ints_TI (zs : list Z) rest : rtake_ints (length zs) (map TI zs ++ rest) = Some (zs, rest).
+Proof. induction zs as [|z zs IH]; [reflexivity|]. cbn [length map app Ref.take_ints Ref.int]. rewrite IH. reflexivity. Qed.
+
+Lemma take_vertex_records rn (V : list (F * F * F)) rest :
+  rtake_records rtake_nums 3 1 (length V) (concat (map (fun v => map fl (v3 v) ++ [TI rn]) V) ++ rest) = Some (map v3 V, rest).
+Proof.
+  induction V as [|[[x y] z] V IH]; [reflexivity|].
+  cbn [length map concat Ref.take_records]. rewrite <- !app_assoc.
+  rewrite (rtake_nums_fl [x; y; z]). cbn [app length Nat.ltb Nat.leb skipn]. rewrite IH. reflexivity.
+Qed.
+
+Lemma take_elem_records rn (ar : nat) (els : list (list Z)) rest : Forall (fun e => length e = ar) els ->
+  rtake_records rtake_ints ar 1 (length els) (concat (map (elem_line_r rn) els) ++ rest) = Some (map (map medit_exp_idx) els, rest).
+Proof.
+  induction 1 as [|e els He _ IH]; [reflexivity|].
+  cbn [length map concat Ref.take_records]. unfold elem_line_r at 1. rewrite <- !app_assoc.
+  rewrite <- (map_map medit_exp_idx TI). rewrite <- He, <- (map_length medit_exp_idx e), rtake_ints_TI.
+  cbn [app length Nat.ltb Nat.leb skipn]. rewrite map_length, He, IH. reflexivity.
+Qed.
+
+Lemma map_unshift (els : list (list Z)) : map (map (fun i => i - 1)) (map (map medit_exp_idx) els) = els.
+Proof.
+  rewrite map_map. rewrite <- (map_id els) at 2. apply map_ext. intros e. rewrite map_map. rewrite <- (map_id e) at 2.
+  apply map_ext. intros i. unfold medit_exp_idx. lia.
+Qed.
+
+Definition add_kV (V : list (list F)) (a : rmacc) : rmacc := mkrmacc (kV a ++ V) (kE a) (kTri a) (kQuad a) (kTet a) (kHex a).
+
+Lemma blk_two w n : (w = "MeshVersionFormatted"%string \/ (w = "Dimension"%string /\ n = 3)) -> blk [TW w; TI n] (fun a => a).
+Proof. intros [-> | [-> ->]]; (split; [discriminate|]); intros fuel rest a; reflexivity. Qed.
+
+Lemma blk_vertices rn (V : list (F * F * F)) :
+  blk (TW "Vertices" :: TI (zlen V) :: concat (map (fun v => map fl (v3 v) ++ [TI rn]) V)) (add_kV (map v3 V)).
+Proof.
+  split; [discriminate|]. intros fuel rest a. cbn [app Ref.ref_medit_loop].
+  change (String.eqb "Vertices" "End") with false. change (String.eqb "Vertices" "MeshVersionFormatted") with false.
+  change (String.eqb "Vertices" "Dimension") with false. change (String.eqb "Vertices" "Vertices") with true. cbn iota.
+  destruct (zlen V <? 0) eqn:E; [unfold zlen in E; lia|]. rewrite zlen_nat, take_vertex_records. reflexivity.
+Qed.
+
+Lemma blk_field rn kw (ar : nat) (els : list (list Z)) :
+  In (kw, ar) medit_kinds ->
+  Forall (fun e => length e = ar) els ->
+  blk (TW kw :: TI (zlen els) :: concat (map (elem_line_r rn) els)) (rmacc_add kw (map (map medit_exp_idx) els)).
+Proof.
+  intros Hk Hall. split; [discriminate|]. intros fuel rest a. cbn [app Ref.ref_medit_loop].
+  unfold medit_kinds in Hk. cbn [In] in Hk.
+  destruct Hk as [Hk|[Hk|[Hk|[Hk|[Hk|[]]]]]]; injection Hk as <- <-;
+    (cbn [String.eqb Ascii.eqb Bool.eqb find fst medit_kinds]; cbn iota;
+     destruct (zlen els <? 0) eqn:E; [unfold zlen in E; lia|];
+     rewrite zlen_nat, (take_elem_records rn _ els rest Hall); reflexivity).
+Qed.
+
+Lemma Forall_len_nat a (els : list (list Z)) : Forall (fun e => length e = Z.to_nat a) (filter (len_is a) els).
+Proof. apply Forall_forall. intros e He. apply filter_In in He as [_ He]. unfold len_is, zlen in He. lia. Qed.
+
+Definition medit_rblock (kw : string) (a : Z) (els : list (list Z)) : list (list tok * (rmacc -> rmacc)) :=
+  if count_if (len_is a) els >? 0
+  then [(TW kw :: TI (zlen (filter (len_is a) els)) :: concat (map (elem_line_r medit_exp_ref) (filter (len_is a) els)),
+         rmacc_add kw (map (map medit_exp_idx) (filter (len_is a) els)))]
+  else [].
+
+Lemma concat_medit_block kw c a (els : list (list Z)) :
+  concat (medit_block els (kw, c, a, a)) = concat (map fst (medit_rblock kw a els)).
+Proof.
+  unfold Model.medit_block, medit_rblock. destruct (count_if (len_is a) els >? 0); [|reflexivity].
+  cbn [concat map fst app]. rewrite concat_app. cbn [concat]. rewrite !app_nil_r. reflexivity.
+Qed.
+
+Lemma medit_rblock_ok kw (ar : nat) a (els : list (list Z)) :
+  In (kw, ar) medit_kinds -> Z.to_nat a = ar ->
+  Forall (fun b => blk (fst b) (snd b)) (medit_rblock kw a els).
+Proof.
+  intros Hk Ha. unfold medit_rblock. destruct (count_if (len_is a) els >? 0); [|constructor].
+  constructor; [|constructor]. cbn [fst snd]. apply (blk_field medit_exp_ref kw ar); [assumption|]. rewrite <- Ha. apply Forall_len_nat.
+Qed.
+
+Lemma fold_rblock kw a (els : list (list Z)) acc :
+  fold_left (fun a0 b => snd b a0) (medit_rblock kw a els) acc = rmacc_add kw (map (map medit_exp_idx) (filter (len_is a) els)) acc.
+Proof.
+  unfold medit_rblock. destruct (count_if (len_is a) els >? 0) eqn:E; [reflexivity|].
+  unfold count_if in E. destruct (filter (len_is a) els) as [|e l]; [|unfold zlen in E; cbn in E; lia].
+  cbn. unfold rmacc_add. cbn. destruct acc. cbn. rewrite !app_nil_r.
+  destruct (String.eqb kw "Edges"), (String.eqb kw "Triangles"), (String.eqb kw "Quadrilaterals"), (String.eqb kw "Tetrahedra"); reflexivity.
+Qed.
+
+Lemma add_kV_mk X V E T Q Te H : add_kV X (mkrmacc V E T Q Te H) = mkrmacc (V ++ X) E T Q Te H.
+Proof. reflexivity. Qed.
+Lemma radd_E els (V : list (list F)) E T Q Te H :
+  rmacc_add "Edges" els (mkrmacc V E T Q Te H) = mkrmacc V (E ++ map (map (fun i => i - 1)) els) T Q Te H.
+Proof. reflexivity. Qed.
+Lemma radd_T els (V : list (list F)) E T Q Te H :
+  rmacc_add "Triangles" els (mkrmacc V E T Q Te H) = mkrmacc V E (T ++ map (map (fun i => i - 1)) els) Q Te H.
+Proof. reflexivity. Qed.
+Lemma radd_Q els (V : list (list F)) E T Q Te H :
+  rmacc_add "Quadrilaterals" els (mkrmacc V E T Q Te H) = mkrmacc V E T (Q ++ map (map (fun i => i - 1)) els) Te H.
+Proof. reflexivity. Qed.
+Lemma radd_Te els (V : list (list F)) E T Q Te H :
+  rmacc_add "Tetrahedra" els (mkrmacc V E T Q Te H) = mkrmacc V E T Q (Te ++ map (map (fun i => i - 1)) els) H.
+Proof. reflexivity. Qed.
+Lemma radd_H els (V : list (list F)) E T Q Te H :
+  rmacc_add "Hexahedra" els (mkrmacc V E T Q Te H) = mkrmacc V E T Q Te (H ++ map (map (fun i => i - 1)) els).
+Proof. reflexivity. Qed.
+
+Lemma medit_ref_reads (m : mesh) L : print_medit m = Some L -> option_map Some (ref_parse_medit (concat L)) = Some (vocab_medit m).
+Proof.
+  unfold Model.print_medit, Model.vocab_medit.
+  rewrite (omap_ext_some _ _ _ (fun v _ => medit_vertex_line_eq v)).
+  destruct (medit_exported_edges m) as [el|] eqn:Eel; [|discriminate].
+  intros [= <-].
+  set (bs := [([TW "MeshVersionFormatted"; TI 1], fun a : rmacc => a); ([TW "Dimension"; TI 3], fun a : rmacc => a)]
+             ++ (if isnil (mV m) then [] else
+                   [(TW "Vertices" :: TI (zlen (mV m)) :: concat (map (fun v => map fl (v3 v) ++ [TI medit_exp_ref]) (mV m)), add_kV (map v3 (mV m)))])
+             ++ (if isnil (mE m) then [] else
+                   [(TW "Edges" :: TI (zlen (map e2 el)) :: concat (map (elem_line_r medit_exp_ref) (map e2 el)),
+                     rmacc_add "Edges" (map (map medit_exp_idx) (map e2 el)))])
+             ++ (if isnil (mF m) then [] else medit_rblock "Triangles" 3 (mF m) ++ medit_rblock "Quadrilaterals" 4 (mF m))
+             ++ (if isnil (mC m) then [] else medit_rblock "Hexahedra" 8 (mC m) ++ medit_rblock "Tetrahedra" 4 (mC m))).
+  match goal with |- option_map Some (ref_parse_medit (concat ?X)) = _ => assert (Hcat : concat X = concat (map fst bs)) end.
+  { unfold bs. rewrite !map_app, !concat_cons, !concat_app. cbn [map fst concat]. rewrite <- !app_assoc. cbn [app].
+    do 4 f_equal. f_equal; [|f_equal; [|f_equal]].
+    - destruct (isnil (mV m)); [reflexivity|]. cbn [concat map fst app]. rewrite concat_app. cbn [concat]. now rewrite !app_nil_r.
+    - destruct (isnil (mE m)); [reflexivity|]. cbn [concat map fst app]. rewrite concat_app. cbn [concat]. rewrite !app_nil_r.
+      rewrite zlen_map, map_map. reflexivity.
+    - destruct (isnil (mF m)); [reflexivity|]. unfold Model.medit_blocks. cbn [filter medit_exp_blocks Z.eqb Pos.eqb flat_map].
+      rewrite app_nil_r, map_app, !concat_app. now rewrite !concat_medit_block.
+    - destruct (isnil (mC m)); [reflexivity|]. unfold Model.medit_blocks. cbn [filter medit_exp_blocks Z.eqb Pos.eqb flat_map].
+      rewrite app_nil_r, map_app, !concat_app. now rewrite !concat_medit_block. }
+  rewrite Hcat. unfold Ref.ref_parse_medit.
+  assert (Hbs : Forall (fun b => blk (fst b) (snd b)) bs).
+  { unfold bs. repeat (apply Forall_app; split).
+    - repeat constructor; cbn [fst snd]; apply blk_two; tauto.
+    - destruct (isnil (mV m)); constructor; [|constructor]. apply blk_vertices.
+    - destruct (isnil (mE m)); constructor; [|constructor]. cbn [fst snd]. apply (blk_field medit_exp_ref "Edges" 2); [cbn; tauto|].
+      apply Forall_forall. intros e He. apply in_map_iff in He as [[a b] [<- _]]. reflexivity.
+    - destruct (isnil (mF m)); [constructor|]. apply Forall_app. split; [apply (medit_rblock_ok "Triangles" 3) | apply (medit_rblock_ok "Quadrilaterals" 4)]; try reflexivity; cbn; tauto.
+    - destruct (isnil (mC m)); [constructor|]. apply Forall_app. split; [apply (medit_rblock_ok "Hexahedra" 8) | apply (medit_rblock_ok "Tetrahedra" 4)]; try reflexivity; cbn; tauto. }
+  pose proof (run_blocks bs Hbs (mkrmacc [] [] [] [] [] []) 0) as Hrun. rewrite Nat.add_0_r in Hrun. rewrite Hrun. clear Hrun Hcat Hbs.
+  cbn [option_map]. f_equal. f_equal.
+  unfold bs. rewrite !fold_left_app. cbn [fold_left snd].
+  (* evaluate the folds block by block *)
+  assert (HF : flat_map (fun b : string * Z * Z * Z => let '(_, _, war, _) := b in filter (len_is war) (mF m))
+                        (filter (fun b : string * Z * Z * Z => let '(_, c, _, _) := b in c =? 2) medit_exp_blocks)
+               = filter (len_is 3) (mF m) ++ filter (len_is 4) (mF m)) by (cbn; now rewrite app_nil_r).
+  assert (HC : flat_map (fun b : string * Z * Z * Z => let '(_, _, war, _) := b in filter (len_is war) (mC m))
+                        (filter (fun b : string * Z * Z * Z => let '(_, c, _, _) := b in c =? 3) medit_exp_blocks)
+               = filter (len_is 8) (mC m) ++ filter (len_is 4) (mC m)) by (cbn; now rewrite app_nil_r).
+  rewrite HF, HC. clear HF HC.
+  unfold Model.medit_exported_edges in Eel.
+  clear bs.
+  destruct (mV m) as [|v0 V0]; destruct (mE m) as [|e0 E0]; destruct (mF m) as [|f0 F0]; destruct (mC m) as [|c0 C0];
+    cbn [isnil fold_left snd app] in Eel |- *; rewrite ?fold_left_app, ?fold_rblock; try (injection Eel as <-);
+    rewrite ?add_kV_mk, ?radd_E, ?radd_T, ?radd_Q, ?radd_H, ?radd_Te; cbn [kV kE kTri kQuad kTet kHex app];
+    rewrite ?map_unshift; cbn [map filter app]; rewrite ?app_nil_r; reflexivity.
 Qed.
 
 End Proofs.
